@@ -297,7 +297,30 @@ def _cr_body(L):
                                               b.args[2] == h0.f(r, "line_number"),
                                               z3.BoolVal(len(cm) == 1), cm[0].args[0] == h0.f(r, "metrics") if cm else z3.BoolVal(False),
                                               b.args[5] == cm[0].result if cm and cm[0].result is not None else z3.BoolVal(False))),
-            ("uninterpretable-tracepoint-contributes-nothing", Implies(Val.is_VNone(b.result), same))]
+            ("uninterpretable-tracepoint-contributes-nothing", Implies(Val.is_VNone(b.result), same)),
+            # grouping is by the trigger's own location id (file#line for a line, file#method for a method) - the only key
+            # touched by this tracepoint is that id; every other location keeps its trigger
+            ("grouped-under-the-triggers-own-location-id", Implies(Not(Val.is_VNone(b.result)), _cr_grouped(L, b.result, table, h0, h1)))]
 
 
-c.loop("iter:response", body_ensures=_cr_body, body_no_raise=True, modifies=lambda L: [("all",)])
+def _cr_grouped(L, trig, table, h0, h1):
+    loc = h1.f(trig, "Trigger.__location")
+    is_line = h1.typeof(loc) == L.cid("LineLocation")
+    tid = If(is_line,
+             Val.VStr(z3.Concat(StrOf(h1.f(loc, "LineLocation.__path")), z3.StringVal("#"), StrOf(h1.f(loc, "LineLocation.__line")))),
+             Val.VStr(z3.Concat(StrOf(h1.f(loc, "FunctionLocation.__path")), z3.StringVal("#"),
+                                StrOf(h1.f(loc, "FunctionLocation.__function_name")))))
+    k = z3.Const("k!crg", Val)
+    return And(h1.dhas(table, tid),
+               If(h0.dhas(table, tid), h1.dget(table, tid) == h0.dget(table, tid), h1.dget(table, tid) == trig),
+               z3.ForAll([k], Implies(k != tid, And(h1.dhas(table, k) == h0.dhas(table, k), h1.dget(table, k) == h0.dget(table, k)))))
+
+
+def _cr_inv(L):
+    """the table being built maps location ids to triggers (declared typing of its values)"""
+    table = L.local("all_triggers")
+    L.spec.dict_values(table, OBJ("Trigger"))
+    return And(Val.is_VRef(table), L.now().typeof(table) == L.cid("dict"), L.now().dlen(table) >= 0)
+
+
+c.loop("iter:response", invariant=_cr_inv, body_ensures=_cr_body, body_no_raise=True, modifies=lambda L: [("all",)])
